@@ -193,11 +193,47 @@ fn guards_deterministic(rng: &mut Rng, guards: &[Option<Expression>]) -> Result<
     Ok(tried)
 }
 
+/// width of an address in the IL of each translator (what its loads, stores and indirect branch targets must have)
+pub fn address_bits(tname: &str) -> usize {
+    match tname {
+        "amd64" | "aarch64" | "aarch64eb" => 64,
+        _ => 32,
+    }
+}
+
+/// loads and stores must address memory at the translator's address width
+fn address_widths(cfg: &ControlFlowGraph, want: usize, problems: &mut Vec<(String, String)>) {
+    for b in cfg.blocks() {
+        for i in b.instructions() {
+            let a = match i.operation() {
+                Operation::Load { index, .. } | Operation::Store { index, .. } => Some(index),
+                // (an indirect branch target legitimately has the operand size of the instruction: 66h-prefixed
+                // near branches truncate the instruction pointer to 16 bits)
+                _ => None,
+            };
+            if let Some(a) = a {
+                if let Some(w) = re::sort_of(a) {
+                    if w != want {
+                        problems.push(("addr-width".into(), format!("{} (address width {}, the architecture's is {})", i.operation(), w, want)));
+                    }
+                }
+            }
+        }
+    }
+}
+
 pub fn check_result(rng: &mut Rng, btr: &BlockTranslationResult) -> (Vec<(String, String)>, u64) {
+    check_result_for(rng, btr, None)
+}
+
+pub fn check_result_for(rng: &mut Rng, btr: &BlockTranslationResult, tname: Option<&str>) -> (Vec<(String, String)>, u64) {
     let mut problems = Vec::new();
     let mut valuations = 0;
     for (_, cfg) in btr.instructions() {
         wellformed_graph(cfg, &mut problems);
+        if let Some(t) = tname {
+            address_widths(cfg, address_bits(t), &mut problems);
+        }
         for b in cfg.blocks() {
             let guards: Vec<Option<Expression>> = cfg.edges().iter().filter(|e| e.head() == b.index()).map(|e| e.condition().cloned()).collect();
             match guards_deterministic(rng, &guards) {
@@ -276,7 +312,7 @@ impl C05 {
                 ctx.count(&format!("{}.rejected", tname));
             }
             Ok(btr) => {
-                let (problems, vals) = check_result(rng, &btr);
+                let (problems, vals) = check_result_for(rng, &btr, Some(tname));
                 ctx.evals(vals);
                 if !problems.is_empty() {
                     let kinds: BTreeSet<&String> = problems.iter().map(|p| &p.0).collect();
